@@ -252,6 +252,25 @@ class SimDuck:
         self.close()
 
 
+def find_instance() -> Any:
+    """The FakeSnow instance behind the currently patched snowflake.connector.connect (observer use only).
+    First the documented mock wiring (side_effect = instance.connect); if patch() is refactored, the newest live
+    FakeSnow object found by the garbage collector."""
+    import gc
+
+    import snowflake.connector
+
+    fn = snowflake.connector.connect
+    for cand in (getattr(fn, "side_effect", None), getattr(fn, "_mock_wraps", None), fn):
+        inst = getattr(cand, "__self__", None)
+        if inst is not None and hasattr(inst, "duck_conn"):
+            return inst
+    found = [o for o in gc.get_objects() if type(o).__name__ == "FakeSnow" and hasattr(o, "duck_conn")]
+    if not found:
+        raise HarnessError("no FakeSnow instance found behind the patched connector")
+    return found[-1]
+
+
 def raw(conn: Any) -> Any:
     """The real DuckDB connection under a proxy (observer use only)."""
     return conn._r if isinstance(conn, SimDuck) else conn
